@@ -366,7 +366,7 @@ def shrink(engine, trace: dict, focus: str, target: tuple, max_s: float = 60.0):
 
 def write_replay(prop: str, seed: int, k: int, engine_name: str, focus: str, minimised: dict,
                  original: dict, violation: dict) -> str:
-    d = os.path.join(VERIF_DIR, "replays")
+    d = os.environ.get("VERIF_REPLAY_DIR") or os.path.join(VERIF_DIR, "replays")
     os.makedirs(d, exist_ok=True)
     path = os.path.join(d, f"{prop}-s{seed}-r{k}.json")
     with open(path, "w") as f:
